@@ -347,10 +347,12 @@ class QuantityMachine(Machine):
             return {"op": "stale_rebase", "pair": pair, "x": rng.choice([3.0, -2.5, 40.0]),
                     "abse": rng.choice([None, 0.5]), "order": rng.randrange(3),
                     "retry": rng.random() < 0.5}
-        if rng.random() < 0.05:
-            # a quantity built from another one: Quantity(x, q) and Quantity(x, q.units())
+        if rng.random() < 0.07:
+            # a quantity built from another one: Quantity(x, q), Quantity(x, q.units()), a
+            # shallow copy (what the library itself makes to protect an operand), a second
+            # quantity over the same Magnitude object
             return {"op": "new_from", "a": a, "x": rng.choice([1, 2, 2.5, -3]),
-                    "how": rng.choice(["quantity", "units"])}
+                    "how": rng.choice(["quantity", "units", "copy", "copy", "magnitude"])}
         if r < 0.30:
             b = self._pick(rng, fam)
             name = rng.choice(["add", "sub", "add", "sub", "mul", "truediv", "eq",
@@ -561,8 +563,18 @@ class QuantityMachine(Machine):
                     "expect": "any"}
         r = rng.random()
         if r < cfg["p_refused"]:
-            kind = rng.choice(["other_dim", "other_dim_compound", "partial_recip", "number_to_unit"])
+            kind = rng.choice(["other_dim", "other_dim_compound", "partial_recip", "number_to_unit",
+                               "unit_to_number"])
             terms = None
+            if kind == "unit_to_number":
+                # the target is "no unit at all" (None or an empty mapping): a plain number has
+                # no dimension, so anything that has one is refused
+                if UM.is_nodim(led["dims"]):
+                    kind = "other_dim"
+                else:
+                    return {"op": "conv", "a": a, "how": "to", "terms": [], "style": 0,
+                            "expect": "refused", "fault": kind,
+                            "number_form": rng.choice(["none", "dict"])}
             if kind == "number_to_unit" and not UM.is_nodim(led["dims"]):
                 kind = "other_dim"
             if kind == "other_dim":
@@ -597,7 +609,12 @@ class QuantityMachine(Machine):
                 return {"op": "conv", "a": a, "how": how, "terms": [["", "rad", 1, 1]],
                         "style": 0, "expect": "ok" if not led["terms"] else "refused",
                         "fault": "nodim_unit_to_rad"}
-            t = rng.choice([[["", "%", 1, 1]], [["", "ppth", 1, 1]], [["k", "m", 1, 1], ["", "m", -1, 1]]])
+            t = rng.choice([[["", "%", 1, 1]], [["", "ppth", 1, 1]], [["k", "m", 1, 1], ["", "m", -1, 1]],
+                            []])
+            if not t:
+                # a dimensionless unit converted to a plain number (to(None), to({}))
+                return {"op": "conv", "a": a, "how": "to", "terms": [], "style": 0, "expect": "ok",
+                        "number_form": rng.choice(["none", "dict"])}
             return {"op": "conv", "a": a, "how": how, "terms": t, "style": 0, "expect": "ok"}
         if r > 1 - cfg["p_recip"]:
             want = tuple(-x for x in led["dims"])
@@ -741,8 +758,15 @@ class QuantityMachine(Machine):
                 elif kind == "new_from":
                     a = self._slot(op["a"])["q"]
                     what = "new_from:" + op["how"]
-                    result = Quantity(op["x"], a) if op["how"] == "quantity" else \
-                        Quantity(op["x"], a.units())
+                    if op["how"] == "copy":
+                        import copy as _copy
+                        result = _copy.copy(a)
+                    elif op["how"] == "magnitude":
+                        result = Quantity(a.magnitude, a.units()) if a.units() else \
+                            Quantity(a.magnitude)
+                    else:
+                        result = Quantity(op["x"], a) if op["how"] == "quantity" else \
+                            Quantity(op["x"], a.units())
                 elif kind == "neg":
                     result = -self._slot(op["a"])["q"]
                 elif kind == "getitem":
@@ -851,8 +875,14 @@ class QuantityMachine(Machine):
                     failed_target, target = target, None
                     self.stats.fault("failing_inplace_" + op["name"], True)
         # the oracle: every member except the in-place target reports what it did before
+        sharers = ()
+        if kind == "inplace" and op.get("name") in ("abse", "rele"):
+            t_ = target if target is not None else failed_target
+            mg = self.pool[t_].get("mg") if t_ is not None else None
+            if mg is not None:
+                sharers = [i for i, e in enumerate(self.pool) if e.get("mg") == mg]
         for i, e in enumerate(self.pool):
-            if i == target:
+            if i == target or (i in sharers and i != failed_target):
                 continue
             if i == failed_target:
                 try:
@@ -902,7 +932,17 @@ class QuantityMachine(Machine):
             elif kind == "np" and op["name"] in ("abs", "absolute", "round", "floor", "ceil",
                                                  "sum", "linspace", "logspace", "negative"):
                 fam = self._slot(op["a"])["fam"]
-            self._add(result, fam)
+            src_ent = self._slot(op["a"]) if kind == "new_from" and \
+                op.get("how") in ("copy", "magnitude") else None
+            k = self._add(result, fam)
+            if src_ent is not None:
+                # a shallow copy / a second quantity over the same Magnitude object shares that
+                # object by the caller's own doing: the setters abse(e) / rele(e) write into it
+                # and show in every sharer (to() and rebase() do not - the library's own operand
+                # protection rests on that)
+                mg = src_ent.setdefault("mg", self._counter)
+                self.pool[k]["mg"] = mg
+                self.stats.probe("member_sharing_a_magnitude")
             return outcome, [what, result.units()]
         return outcome, [what, repr(result) if isinstance(result, (bool, np.bool_)) else None]
 
@@ -931,9 +971,10 @@ class QuantityMachine(Machine):
             allowed = i
             what = "caller wrote into the array value() returned"
         self.stats.fault("caller_writes_into_an_array", True)
+        mg = e.get("mg")
         for j, x in enumerate(self.pool):
-            if j == allowed:
-                continue
+            if j == allowed or (allowed is not None and mg is not None and x.get("mg") == mg):
+                continue        # (members made to share one Magnitude share its storage)
             try:
                 after = snap(x["q"], deep=True)
             except Exception as ex:
@@ -1304,6 +1345,11 @@ class QuantityMachine(Machine):
             return "skip", None
         terms = [list(t) for t in op["terms"]]
         text = UM.text(terms, op["style"])
+        if not terms:
+            # "no unit": None or an empty mapping as the target of to()
+            text = {} if op.get("number_form") == "dict" else None
+            op = dict(op, how="to")
+            self.stats.probe("plain_number_as_target")
         rel = self._relation(led["dims"], UM.dims(terms), bare=not led["terms"])
         if not led["terms"] and terms and terms != [["", "rad", 1, 1]] and \
                 (rel == "number_to_rad" or all(t[1] == "rad" for t in terms)):
